@@ -24,3 +24,12 @@ Theorem C07_rejected : forall d o,
   export_rows d o = Err "ValueError"%string.
 Proof. exact range_validation. Qed.
 Print Assumptions C07_rejected.
+
+(* the measure index of every imported document is strictly increasing and addresses existing stages, so the
+   stage ranges of consecutive measures are disjoint and ordered *)
+From KV Require Import ImporterProofs.
+From Coq Require Import Sorted.
+Theorem C07_measure_index_sorted : forall bad text d, loads bad text = IOk d ->
+  StronglySorted lt (d_mst d) /\ Forall (fun m => 1 <= m < List.length (d_stages d)) (d_mst d).
+Proof. exact loads_measure_index. Qed.
+Print Assumptions C07_measure_index_sorted.
